@@ -166,6 +166,11 @@ def run(ctx):
                         cap_ok = False
             ok = rem_ok and cap_ok
             detail += " ; caps(ms)=%s remaining-term=%s" % (caps, rem_ok)
+            # the back-off never collapses to zero (a zero delay turns the loop into a spin): inductively, the initial value is > 0 and
+            # every update is min(delay * k, cap) / delay + c / delay * k with k >= 1, cap > 0
+            pos = len(delay) == 1 and all(delay_positive(alt) for alt in M.alts(delay[0]))
+            ctx.ob("R11.4", "sleep>0", pos, owt.loc(bb), "the delay slept between status checks must stay positive on every iteration "
+                   "(initial value > 0, updates that cannot reach zero) — otherwise wait_timeout spins: " + M.term_str(delay[0] if delay else a)[:160])
         ctx.ob("R11.4", "sleep<=min(cap,remaining)", ok, owt.loc(bb), "sleep argument must be min(delay <= 100ms, deadline - now): " + detail)
 
     # ---- R11.5 poll == wait_timeout(0).unwrap_or(None) -------------------
@@ -200,6 +205,25 @@ def delay_cap_ms(t):
         caps = [c for c in caps if c is not None]
         return min(caps) if caps else None
     return None
+
+
+def delay_positive(t):
+    """lower bound > 0 of a delay term, assuming (induction over the loop) that the delay variable itself is > 0"""
+    if t[0] == "call" and t[1] in ("std::time::Duration::from_millis", "std::time::Duration::from_secs", "std::time::Duration::from_micros", "std::time::Duration::from_nanos"):
+        c = const_of(t[2][0])
+        return c is not None and c > 0
+    if t[0] == "call" and t[1] in ("std::cmp::min", "std::cmp::max", "std::cmp::Ord::min", "std::cmp::Ord::max"):
+        return all(delay_positive(x) for x in t[2])
+    if t[0] == "call" and ("Mul<u32>>::mul" in t[1] or t[1].endswith("Duration::saturating_mul") or "MulAssign" in t[1]):
+        k = const_of(t[2][1])
+        return k is not None and k >= 1 and delay_positive(t[2][0])
+    if t[0] == "call" and ("as std::ops::Add>::add" in t[1] or t[1].endswith("Duration::saturating_add")):
+        return any(delay_positive(x) for x in t[2])
+    if t[0] == "local":      # the loop-carried delay variable itself (induction hypothesis)
+        return True
+    if t[0] in ("copy", "move"):
+        return delay_positive(t[1])
+    return False
 
 
 def run_thorough(ctx):
